@@ -65,11 +65,15 @@ FloatOk(c, k) == c # "big" /\ (k = "f32" => c # "f1e39")
 \*  q7 "7", q200 "200", ... : a string whose content is the number literal of that class (for `,string` fields and json.Number)
 QClasses == {"q7", "q200", "q300", "q40000", "q70000", "q3e9", "q5e9", "qn3", "q1_5", "q2_63"}
 \*  sb1 "YQ==" (one byte), sb3 "YWJj" (three bytes): the other base64 paddings
-StrClasses == {"sx", "se", "s12", "sb64", "sb1", "sb3", "sesc", "snull", "strue", "sq", "ssur", "sctl", "sbad"} \cup QClasses
+\*  the doubly quoted forms a `,string` string field meets: sq "\"x\"" (well formed), sqe "\"a\\nb\"" (an escape inside the inner literal),
+\*  sqo "\"x" (inner literal never closed), sqbs "\"x\\" (it ends with an escaped backslash where the closing quote should be),
+\*  sqt "\"x\"y" (bytes after the inner closing quote)
+SQBad == {"sqo", "sqbs", "sqt"}
+StrClasses == {"sx", "se", "s12", "sb64", "sb1", "sb3", "sesc", "snull", "strue", "sq", "sqe", "ssur", "sctl", "sbad"} \cup SQBad \cup QClasses
 B64Ok == {"se", "sb64", "snull", "strue", "sb1", "sb3"}
 \* the literal that the content of a string class spells (for `,string` fields), or "none"
 Inner(c) == CASE c = "s12" -> [j |-> "n", c |-> "p12"] [] c = "snull" -> [j |-> "null"] [] c = "strue" -> [j |-> "t"]
-              [] c = "sq" -> [j |-> "s", c |-> "sx"]
+              [] c = "sq" -> [j |-> "s", c |-> "sx"] [] c = "sqe" -> [j |-> "s", c |-> "sanb"]
               [] c = "q7" -> [j |-> "n", c |-> "p7"] [] c = "q200" -> [j |-> "n", c |-> "p200"] [] c = "q300" -> [j |-> "n", c |-> "p300"]
               [] c = "q40000" -> [j |-> "n", c |-> "p40000"] [] c = "q70000" -> [j |-> "n", c |-> "p70000"]
               [] c = "q3e9" -> [j |-> "n", c |-> "p3e9"] [] c = "q5e9" -> [j |-> "n", c |-> "p5e9"] [] c = "qn3" -> [j |-> "n", c |-> "n3"]
